@@ -352,6 +352,9 @@ func runC06Schedules(c *Ctx) error {
 			c.oracleFail("wire is not a sequence of whole frames ["+tag+"]", "schedule-wire-corrupt", replay)
 		case closes > 1:
 			c.oracleFail(fmt.Sprintf("%d Close frames on the wire [%s]", closes, tag), "two-close-frames", replay)
+		case closes == 0:
+			// the transport is healthy (writes are only delayed): whoever closed, one Close frame goes out
+			c.oracleFail(fmt.Sprintf("the connection was closed (%s) while writers were busy and NO Close frame reached the wire [%s]", map[bool]string{true: "peer Close", false: "local WriteClose"}[peerClose], tag), "no-close-frame", replay)
 		case after > 0:
 			c.oracleFail(fmt.Sprintf("%d frame(s) written after the Close frame [%s]", after-0, tag), "frame-after-close", replay)
 		}
